@@ -1,0 +1,22 @@
+//go:build verif
+
+package client
+
+// Contracts for the verification machinery in /verif (comment-only; not compiled without the tag "verif").
+
+// The caller starts exactly len(ms) senders, each of which sends exactly once on msc.
+//@ func collectMeasurements
+//@   modifies ms[:]
+//@   loop 0 invariant 0 <= j && j <= i && i <= n && n == len(ms) && forall(q, 0, j, ms[q].Error == nil) && forall(q, j, len(ms), ms[q] == old(ms[q]))
+//@   go 0 requires n == len(ms)-i
+//@   ensures count: 0 <= result && result <= len(ms)
+//@   ensures front: forall(q, 0, result, ms[q].Error == nil)
+//@   ensures rest: forall(q, result, len(ms), ms[q] == old(ms[q]))
+
+// A second collection on the same collector while one is in progress is refused (panic) before anything is
+// spawned; during the call the counter is 1 and every normal exit resets it to 0.
+//@ func (*ReferenceClockClient).MeasureClockOffsets
+//@   requires c != nil
+//@   panics when len(ms) != len(refclks) || c.numOpsInProgress != 0
+//@   modifies c.numOpsInProgress, ms[:]
+//@   ensures idle: c.numOpsInProgress == 0
